@@ -22,8 +22,10 @@ from tensorly.tucker_tensor import TuckerTensor
 from tensorly.parafac2_tensor import Parafac2Tensor
 from tensorly.decomposition import (
     parafac, non_negative_parafac, non_negative_parafac_hals, constrained_parafac,
-    tucker, non_negative_tucker, non_negative_tucker_hals, parafac2,
+    tucker, non_negative_tucker, non_negative_tucker_hals, parafac2, partial_tucker, randomised_parafac,
+    CP, CP_NN, CP_NN_HALS, ConstrainedCP, RandomizedCP, Tucker, Parafac2,
 )
+from tensorly.decomposition._tucker import Tucker_NN, Tucker_NN_HALS
 
 from vlib import gen, ref
 from vlib.engine import SubCheck, check, fail, discard, Fail
@@ -49,10 +51,10 @@ ASSUMPTIONS = ["NumPy einsum / linalg.qr are correct", "Hypothesis generates wha
 LINALG = (np.linalg.LinAlgError,)
 
 CP_ALGOS = {
-    "parafac": dict(fn=parafac, nonneg=False, reexpress=True),
-    "nn_mu": dict(fn=non_negative_parafac, nonneg=True, reexpress=True),
-    "nn_hals": dict(fn=non_negative_parafac_hals, nonneg=True, reexpress=True),
-    "admm": dict(fn=constrained_parafac, nonneg=False, reexpress=False),
+    "parafac": dict(fn=parafac, cls=CP, nonneg=False, reexpress=True),
+    "nn_mu": dict(fn=non_negative_parafac, cls=CP_NN, nonneg=True, reexpress=True),
+    "nn_hals": dict(fn=non_negative_parafac_hals, cls=CP_NN_HALS, nonneg=True, reexpress=True),
+    "admm": dict(fn=constrained_parafac, cls=ConstrainedCP, nonneg=False, reexpress=False),
 }
 
 
@@ -101,7 +103,7 @@ def _subset(draw, universe, min_size=0, max_size=None):
 
 @st.composite
 def _cp_case(draw, algo, wclass, budgets=(0, 1, 2, 3), fixed="proper", reexpress=False, orthogonalise=False,
-             linesearch=False):
+             linesearch=False, api=None):
     """wclass: 'unit' | 'weighted';  fixed: 'none' | 'proper' (subset without last mode, may be empty)
        | 'nonempty' | 'all' | 'with_last' (contains the last mode; may be all)"""
     spec = CP_ALGOS[algo]
@@ -169,6 +171,8 @@ def _cp_case(draw, algo, wclass, budgets=(0, 1, 2, 3), fixed="proper", reexpress
         opts["constraint"] = draw(st.sampled_from(["non_negative", "l2_square_reg", "l2_reg"]))
         opts["n_iter_max_inner"] = draw(st.integers(1, 4))
     c["opts"] = opts
+    # the class wrappers (CP, CP_NN, CP_NN_HALS, ConstrainedCP) forward init / fixed_modes to the same functions
+    c["api"] = api or ("function" if (reexpress or fixed == "all") else draw(st.sampled_from(["function", "function", "class"])))
     return c
 
 
@@ -209,7 +213,12 @@ def _run_cp(case, w, F, X, n_iter=None, fixed=None):
     if fx:
         kw["fixed_modes"] = list(fx)
     init = _wrap_cp(case["form"], None if w is None else w.copy(), [f.copy() for f in F])
-    out = spec["fn"](X.copy(), case["rank"], n_iter_max=case["n_iter"] if n_iter is None else n_iter, init=init, **kw)
+    budget = case["n_iter"] if n_iter is None else n_iter
+    if case.get("api") == "class":
+        kw.pop("return_errors", None)
+        out = spec["cls"](case["rank"], n_iter_max=budget, init=init, **kw).fit_transform(X.copy())
+    else:
+        out = spec["fn"](X.copy(), case["rank"], n_iter_max=budget, init=init, **kw)
     if kw.get("return_errors") and isinstance(out, tuple) and len(out) == 2 and isinstance(out[1], list):
         # (cp, errors); parafac's all-modes-fixed shortcut returns the bare CPTensor even with
         # return_errors=True — an interface inconsistency outside C14, accepted here (see notes/c14.md)
@@ -262,7 +271,7 @@ def o_cp(case):
         same_bits(rf[nd - 1], F[nd - 1], "b/fixed-factor")
     return {"nontrivial": (not unit) or bool(fx),
             "labels": [f"order={nd}", f"w={_wsign(w)}", f"n={n}", f"nfixed={len(fx)}", f"form={case['form']}",
-                       f"dtype={case['dtype']}"] + ([f"orthogonalise={case['opts']['orthogonalise']}"]
+                       f"dtype={case['dtype']}", f"api={case.get('api', 'function')}"] + ([f"orthogonalise={case['opts']['orthogonalise']}"]
                                                           if case["opts"].get("orthogonalise") else [])}
 
 
@@ -350,6 +359,7 @@ def _tucker_case(draw, algo, fixed="proper", budgets=(0, 1, 2, 3), orth=True):
          "n_iter": draw(st.sampled_from(list(budgets))), "opts": {}}
     if algo == "ntd_hals":
         c["opts"]["algorithm"] = draw(st.sampled_from(["fista", "active_set"]))
+    c["api"] = draw(st.sampled_from(["function", "function", "class"]))
     return c
 
 
@@ -362,15 +372,30 @@ def _dec_factor(enc):
 def _run_tucker(case, core, F, X):
     algo = case["algo"]
     c0, F0 = core.copy(), [f.copy() for f in F]
-    init = {"tuple": (c0, F0), "list": [c0, F0], "wrapper": TuckerTensor((c0, F0))}[case["form"]]
+    init = (c0, F0) if case["form"] == "tuple" else [c0, F0] if case["form"] == "list" else TuckerTensor((c0, F0))
     fx = list(case["fixed"])
+    cls = case.get("api") == "class"
+    rk, n = list(case["ranks"]), case["n_iter"]
     if algo == "tucker":
-        out = tucker(X.copy(), list(case["ranks"]), fixed_factors=fx if fx else None, n_iter_max=case["n_iter"], init=init)
+        if cls:
+            out = Tucker(rk, fixed_factors=fx if fx else None, n_iter_max=n, init=init).fit_transform(X.copy())
+        else:
+            out = tucker(X.copy(), rk, fixed_factors=fx if fx else None, n_iter_max=n, init=init)
     elif algo == "ntd_hals":
-        out = non_negative_tucker_hals(X.copy(), list(case["ranks"]), fixed_modes=fx if fx else None,
-                                       n_iter_max=case["n_iter"], init=init, algorithm=case["opts"]["algorithm"])
+        if cls:
+            out = Tucker_NN_HALS(rk, fixed_modes=fx if fx else None, n_iter_max=n, init=init,
+                                 algorithm=case["opts"]["algorithm"]).fit_transform(X.copy())
+        else:
+            out = non_negative_tucker_hals(X.copy(), rk, fixed_modes=fx if fx else None, n_iter_max=n, init=init,
+                                           algorithm=case["opts"]["algorithm"])
+    elif algo == "partial_tucker":
+        modes = case["opts"]["modes"]
+        out, _errs = partial_tucker(X.copy(), [rk[m] for m in modes], modes=list(modes), n_iter_max=n, init=init)
     else:
-        out = non_negative_tucker(X.copy(), list(case["ranks"]), n_iter_max=case["n_iter"], init=init)
+        if cls:
+            out = Tucker_NN(rk, n_iter_max=n, init=init).fit_transform(X.copy())
+        else:
+            out = non_negative_tucker(X.copy(), rk, n_iter_max=n, init=init)
     try:
         rc, rf = out
         rf = list(rf)
@@ -392,7 +417,7 @@ def o_tucker(case):
     for m in fx:
         same_bits(rf[m], F[m], "b/fixed-factor")
     allfixed = sorted(fx) == list(range(nd))
-    labels = [f"order={nd}", f"n={n}", f"nfixed={len(fx)}", f"form={case['form']}",
+    labels = [f"order={nd}", f"n={n}", f"nfixed={len(fx)}", f"form={case['form']}", f"api={case.get('api', 'function')}",
               f"ranks={'equal' if len(set(case['ranks'])) == 1 else 'unequal'}"]
     if n == 0 or allfixed:
         assert_shape(rc, core.shape, "a/core-shape")
@@ -408,6 +433,102 @@ def o_tucker(case):
             d = float(np.max(np.abs(got - want))) / scale
             labels.append(f"nonorth_budget0_same={d <= 1e-10}")
     return {"nontrivial": bool(fx), "labels": labels}
+
+
+@st.composite
+def _partial_tucker_case(draw):
+    """partial_tucker with a user init (core has the tensor's size on the modes that are not decomposed)"""
+    X = draw(gen.data_tensor(min_order=2, max_order=4, min_side=2, max_side=4, kinds=("normal", "lowrank")))
+    shape = X["s"]
+    nd = len(shape)
+    modes = sorted(draw(_subset(range(nd), min_size=1)))
+    ranks = [draw(st.integers(1, min(s, 3))) if i in modes else s for i, s in enumerate(shape)]
+    facs = [draw(gen.arr([shape[m], ranks[m]], kinds=("normal", "int"))) for m in modes]
+    return {"algo": "partial_tucker", "X": X, "ranks": ranks, "core": draw(gen.arr(ranks, kinds=("normal", "int"))),
+            "factors": facs, "fixed": [], "form": draw(st.sampled_from(["tuple", "list"])), "n_iter": 0,
+            "opts": {"modes": modes}, "api": "function"}
+
+
+def o_partial_tucker(case):
+    X = gen.dec_data(case["X"])
+    core = gen.dec(case["core"])
+    F = [gen.dec(f) for f in case["factors"]]
+    modes = case["opts"]["modes"]
+    rc, rf = _run_tucker(case, core, F, X)
+    assert_shape(rc, core.shape, "a/core-shape")
+    for i, f in enumerate(rf):
+        assert_shape(f, F[i].shape, "a/factor-shape")
+    want = ref.tucker_dense(core, F, modes)
+    close(ref.tucker_dense(rc, rf, modes), want, "a/budget0", rel=1e-10, scale=max(1.0, float(np.max(np.abs(want)))))
+    return {"nontrivial": len(modes) < X.ndim, "labels": [f"order={X.ndim}", f"nmodes={len(modes)}"]}
+
+
+# ----------------------------------------------------------------------------
+# randomised_parafac / RandomizedCP (sampled ALS; no fixed modes)
+# ----------------------------------------------------------------------------
+@st.composite
+def _rcp_case(draw, wclass):
+    X = draw(gen.data_tensor(min_order=3, max_order=4, min_side=2, max_side=4, kinds=("normal", "lowrank")))
+    shape = X["s"]
+    rank = draw(st.integers(1, 3))
+    facs = [draw(gen.arr([s, rank], kinds=("normal", "normal", "int"))) for s in shape]
+    wk = draw(st.sampled_from(["none", "ones"])) if wclass == "unit" else draw(st.sampled_from(["pos", "neg", "mixed"]))
+    return {"X": X, "rank": rank, "weights": draw(_weights(rank, wk)), "factors": facs,
+            "form": draw(st.sampled_from(["tuple", "list", "wrapper"])), "n_iter": draw(st.sampled_from([0, 0, 1, 2])),
+            "n_samples": rank + draw(st.integers(2, 6)), "seed": draw(st.integers(0, 2 ** 32 - 1)),
+            "api": draw(st.sampled_from(["function", "class"])), "callback": draw(st.booleans()),
+            "return_errors": draw(st.booleans())}
+
+
+def o_rcp(case):
+    """(a) budget 0 => the result is the init tensor; the observer's first invocation (before any sweep)
+    receives the init tensor, whatever the budget"""
+    X = gen.dec_data(case["X"])
+    w = gen.dec(case["weights"]) if case["weights"] is not None else None
+    F = [gen.dec(f) for f in case["factors"]]
+    seen = []
+
+    def cb(cp, err=None):
+        if not seen:
+            try:
+                cw, cf = cp
+                seen.append((None if cw is None else np.array(cw, copy=True), [np.array(f, copy=True) for f in cf]))
+            except Exception:  # noqa
+                seen.append(None)
+
+    init = _wrap_cp(case["form"], None if w is None else w.copy(), [f.copy() for f in F])
+    kw = dict(n_iter_max=case["n_iter"], init=init, random_state=int(case["seed"]), tol=0,
+              callback=cb if case["callback"] else None)
+    if case["api"] == "class":
+        out = RandomizedCP(case["rank"], case["n_samples"], verbose=0, **kw).fit_transform(X.copy())
+    else:
+        out = randomised_parafac(X.copy(), case["rank"], case["n_samples"], return_errors=case["return_errors"], **kw)
+        if case["return_errors"]:
+            check(isinstance(out, tuple) and len(out) == 2 and isinstance(out[1], list), "result/form",
+                  "return_errors=True did not give (cp, errors)")
+            out = out[0]
+    try:
+        rw, rf = out
+        rf = list(rf)
+    except Exception:  # noqa
+        raise Fail("result/form", f"result is not a (weights, factors) pair: {type(out).__name__}")
+    check(len(rf) == len(F), "result/form", f"{len(rf)} factors for an order-{len(F)} tensor")
+    for i, f in enumerate(rf):
+        assert_shape(f, F[i].shape, "result/factor-shape")
+    want = ref.cp_dense(w, F)
+    scale = max(1.0, float(np.max(np.abs(want))))
+    if case["callback"]:
+        check(len(seen) == 1 and seen[0] is not None, "a/callback0", "observer was not called with a (weights, factors) pair")
+        cw, cf = seen[0]
+        check(len(cf) == len(F), "a/callback0", "wrong number of factors in the observer's first argument")
+        for i, f in enumerate(cf):
+            assert_shape(f, F[i].shape, "a/callback0")
+        close(ref.cp_dense(cw, cf), want, "a/callback0", rel=1e-10, scale=scale)
+    if case["n_iter"] == 0:
+        close(ref.cp_dense(None if rw is None else as_array(rw, "result/weights"), rf), want, "a/budget0", rel=1e-10, scale=scale)
+    return {"nontrivial": _wsign(w) not in ("none", "ones"),
+            "labels": [f"order={X.ndim}", f"w={_wsign(w)}", f"n={case['n_iter']}", f"api={case['api']}", f"form={case['form']}",
+                       f"callback={case['callback']}"]}
 
 
 # ----------------------------------------------------------------------------
@@ -441,6 +562,7 @@ def _p2_case(draw, kind, budgets=(0,), wclass="any", linesearch=None):
         wk = draw(st.sampled_from(["none", "ones", "pos", "neg", "mixed"]))
     c["weights"] = draw(_weights(R, wk))
     c["linesearch"] = draw(st.booleans()) if linesearch is None else linesearch
+    c["api"] = draw(st.sampled_from(["function", "function", "class"]))
     if wclass == "weighted":
         c["absorb"] = draw(st.integers(0, 2))
     return c
@@ -469,7 +591,10 @@ def _p2_init(case, w, A, B, C, P):
 
 def _p2_run(case, init, X, n_iter):
     Xc = [s.copy() for s in X] if isinstance(X, list) else X.copy()
-    out = parafac2(Xc, case["R"], n_iter_max=n_iter, init=init, tol=0, linesearch=case["linesearch"])
+    if case.get("api") == "class":
+        out = Parafac2(case["R"], n_iter_max=n_iter, init=init, tol=0, linesearch=case["linesearch"]).fit_transform(Xc)
+    else:
+        out = parafac2(Xc, case["R"], n_iter_max=n_iter, init=init, tol=0, linesearch=case["linesearch"])
     try:
         rw, rf, rp = out
         A, B, C = rf
@@ -500,7 +625,8 @@ def o_p2_budget0(case):
     for g, s in zip(got, want):
         close(g, s, "a/budget0", rel=1e-10, scale=scale)
     return {"nontrivial": _wsign(w) not in ("none", "ones"),
-            "labels": [f"kind={case['kind']}", f"w={_wsign(w)}", f"form={case['form']}", f"ragged={case['ragged']}"]}
+            "labels": [f"kind={case['kind']}", f"w={_wsign(w)}", f"form={case['form']}", f"ragged={case['ragged']}",
+                       f"api={case.get('api', 'function')}"]}
 
 
 def o_p2_reexpress(case):
@@ -554,6 +680,9 @@ def subchecks(tier):
                          discard_exc=LINALG))
     subs.append(SubCheck("cp/parafac/all_fixed_weighted", _cp_case("parafac", "weighted", fixed="all"), o_cp, quick=250,
                          thorough=1200, discard_exc=LINALG))
+    # CP(...).fit_transform with every mode fixed (N8): kept apart from the function-level shortcut
+    subs.append(SubCheck("cp/parafac/all_fixed_class", _cp_case("parafac", "unit", fixed="all", api="class"), o_cp, quick=60,
+                         thorough=400, discard_exc=LINALG))
     subs.append(SubCheck("cp/parafac/fixed_orthogonalise", _cp_case("parafac", "unit", budgets=(1, 2, 3), fixed="nonempty",
                                                                orthogonalise=True), o_cp, quick=250, thorough=1200,
                          discard_exc=LINALG))
@@ -578,6 +707,11 @@ def subchecks(tier):
                          discard_exc=LINALG))
     subs.append(SubCheck("ntd_mu/budget0", _tucker_case("ntd_mu", fixed="none", budgets=(0,)), o_tucker, quick=200, thorough=1000,
                          discard_exc=LINALG))
+    subs.append(SubCheck("partial_tucker/budget0", _partial_tucker_case(), o_partial_tucker, quick=100, thorough=1000,
+                         discard_exc=LINALG))
+    # sampled ALS (seeded change C14-r2m2): weights of a user init must not be dropped
+    subs.append(SubCheck("cp/randomised/unit", _rcp_case("unit"), o_rcp, quick=100, thorough=1000, discard_exc=LINALG))
+    subs.append(SubCheck("cp/randomised/weighted", _rcp_case("weighted"), o_rcp, quick=150, thorough=1500, discard_exc=LINALG))
     subs.append(SubCheck("parafac2/budget0_p2", _p2_case("p2"), o_p2_budget0, quick=300, thorough=2000, discard_exc=LINALG))
     subs.append(SubCheck("parafac2/budget0_cp", _p2_case("cp"), o_p2_budget0, quick=300, thorough=2000, discard_exc=LINALG))
     subs.append(SubCheck("parafac2/reexpress", _p2_case("p2", budgets=(1, 2, 3), wclass="weighted"), o_p2_reexpress, quick=200,
